@@ -18,7 +18,8 @@ from .values import (as_int, as_seq, box, elem_spec, fld, isa, norm_index, py_eq
 class IterView:
     """A finite indexed view of an iterable: length + k-th element."""
 
-    def __init__(self, length, get, seq=None, espec=VAL):
+    def __init__(self, length, get, seq=None, espec=VAL, rng=None):
+        self.rng = rng  # (lo, hi) for range(...) views
         self.length = length
         self.get = get  # callable(k_term, st) -> Sym
         self.seq = seq  # underlying SeqV term if element k is seq[k]
@@ -192,6 +193,17 @@ class ExprMixin:
         val = module.assigns[name]
         if isinstance(val, ast.Constant):
             return self.e_Constant(val, st)
+        if isinstance(val, (ast.Set, ast.Tuple, ast.List)) and all(isinstance(e, ast.Constant) for e in val.elts):
+            items = [box(self.e_Constant(e, st), st) for e in val.elts]
+            kind = "set" if isinstance(val, ast.Set) else "seq"
+            es = Spec("str") if all(isinstance(e.value, str) for e in val.elts) else VAL
+            return Sym(kind, Q.Literal(st, items), Spec(kind, es))
+        if (isinstance(val, ast.Call) and isinstance(val.func, ast.Name) and val.func.id in ("set", "frozenset", "tuple", "list")
+                and len(val.args) == 1 and isinstance(val.args[0], ast.Constant) and isinstance(val.args[0].value, str)):
+            chars = list(dict.fromkeys(val.args[0].value)) if val.func.id in ("set", "frozenset") else list(val.args[0].value)
+            items = [box(S_str(ch), st) for ch in chars]
+            kind = "set" if val.func.id in ("set", "frozenset") else "seq"
+            return Sym(kind, Q.Literal(st, items), Spec(kind, Spec("str")))
         if isinstance(val, ast.Call):
             fn = ast.unparse(val.func)
             if fn.endswith("MarkerObject") or fn in ("object",):
@@ -407,6 +419,13 @@ class ExprMixin:
             if sp is not None and sp.kind == "str":
                 return uf("str_contains", V, V, BoolS)(container.t, box(x, st))
             return uf("py_contains", V, V, BoolS)(container.t, box(x, st))
+        if container.kind == "pyobj" and container.py[0] == "iterview" and container.py[1].rng is not None:
+            lo, hi = container.py[1].rng
+            if x.kind in ("int", "bool"):
+                xi = as_int(x, st)
+                return z3.And(lo <= xi, xi < hi)
+            xb = box(x, st)
+            return z3.And(isa(xb, "int"), lo <= unI(xb), unI(xb) < hi)
         raise Unsupported(f"in on {container.kind}")
 
     # ------------------------------------------------------------------ displays
@@ -547,6 +566,8 @@ class ExprMixin:
             if strict:
                 self.may_raise(st, i < 0, "IndexError:negative-position", where)
             # in specifications s[i] is the mathematical at(s, i) (no negative-index normalisation)
+            if base.spec is not None and base.spec.kind == "tupleof" and z3.is_int_value(i) and 0 <= i.as_long() < len(base.spec.arg):
+                return unbox(base.spec.arg[i.as_long()], Q.At(s, i), st)
             return unbox(elem_spec(base), Q.At(s, i if self.spec_mode else norm_index(i, n)), st)
         if base.kind == "dict":
             kb = box(idx, st)
